@@ -111,27 +111,45 @@ def query_text(ob):
 
 
 def run_one(text, timeout=TIMEOUT, want_all=False):
-    """returns (verdict, backend, seconds, details)"""
+    """portfolio: all solvers start together on the same SMT-LIB text; the first definitive answer wins
+    (with want_all every solver is awaited, to detect disagreement).  returns (verdict, backend, seconds, details)"""
     fd, path = tempfile.mkstemp(suffix=".smt2", prefix="pyvc_")
     with os.fdopen(fd, "w") as f:
         f.write(text)
-    results = []
     t0 = time.time()
+    procs = []
+    results = []
     try:
         for name, cmd in SOLVERS:
             c = [a.replace("{T}", str(timeout)).replace("{TMS}", str(timeout * 1000)) for a in cmd] + [path]
-            t1 = time.time()
             try:
-                p = subprocess.run(c, capture_output=True, text=True, timeout=timeout + 5)
-                out = p.stdout.strip().splitlines()
-                ans = out[0].strip() if out else "unknown"
-                if ans not in ("sat", "unsat"):
-                    ans = "unknown"
-            except subprocess.TimeoutExpired:
-                ans = "unknown"
-            results.append((name, ans, time.time() - t1))
-            if ans in ("sat", "unsat") and not want_all:
-                break
+                procs.append((name, subprocess.Popen(c, stdout=subprocess.PIPE, stderr=subprocess.DEVNULL, text=True), time.time()))
+            except OSError:
+                results.append((name, "unknown", 0.0))
+        pending = list(procs)
+        deadline = t0 + timeout + 5
+        decided = False
+        while pending and time.time() < deadline and not (decided and not want_all):
+            for item in list(pending):
+                name, p, t1 = item
+                if p.poll() is not None:
+                    out = (p.stdout.read() or "").strip().splitlines()
+                    ans = out[0].strip() if out else "unknown"
+                    if ans not in ("sat", "unsat"):
+                        ans = "unknown"
+                    results.append((name, ans, time.time() - t1))
+                    pending.remove(item)
+                    if ans in ("sat", "unsat"):
+                        decided = True
+            if pending and not (decided and not want_all):
+                time.sleep(0.01)
+        for name, p, t1 in pending:
+            try:
+                p.kill()
+                p.wait(timeout=2)
+            except Exception:
+                pass
+            results.append((name, "unknown", time.time() - t1))
     finally:
         os.unlink(path)
     answers = {a for _, a, _ in results if a != "unknown"}
@@ -147,7 +165,7 @@ def run_one(text, timeout=TIMEOUT, want_all=False):
 
 
 def discharge(obligations, jobs=None, want_all=False):
-    jobs = jobs or int(os.environ.get("PYVC_JOBS", "12"))
+    jobs = jobs or int(os.environ.get("PYVC_JOBS", "6"))
     texts = [query_text(ob) for ob in obligations]
     with ThreadPoolExecutor(max_workers=jobs) as pool:
         outs = list(pool.map(lambda t: run_one(t, want_all=want_all), texts))
